@@ -88,10 +88,10 @@ prop(
 
 prop(
     "C12",
-    ["DivanModel.Props.C12", "DivanModel.Props.C12Uniq", "DivanModel.Props.C12Groups"],
+    ["DivanModel.Props.C12", "DivanModel.Props.C12Uniq", "DivanModel.Props.C12Groups", "DivanModel.Props.C12Push"],
     [lab("reg", 1500, 40000), lab("mac", 480, 9600, timeout=1200), lab("elist", 8, 60)],
-    level_text="Theorems on the tree-building model (EntryList order, from_benches/insert_entry, insert_group): every registered plain benchmark and generic instance becomes exactly one leaf below parents named by its path components (buildTree_leaves, a multiset equality), bench_group entries add no leaf, and the placed-leaf multiset is invariant under any permutation of the registration order (order_independent); at every level of the built tree no two parent nodes carry the same raw name, whatever was registered in whatever order (Props/C12Uniq.buildTree_uniq, uniq_same_node): a module is one node; the nodes of the tree are exactly the non-empty prefixes of the registered entries' paths (Props/C12Groups.hasNode_fromBenches), insert_group sets the slot of exactly the node 'module path + raw name' and changes no node (slotAt_insertGroup, hasNode_insertGroup), and therefore a bench_group module with a benchmark at or below it always ends up with its group entry in that node (group_reaches_benchmarks_below; the last registered entry wins when several claim one node - finding F7), from where the walk takes the display name and hands the options down (C15). Tied to the code by the registry lab: entries are pushed into BENCH_ENTRIES/GROUP_ENTRIES in random constructor order exactly as the macro expansion does, the real front end runs, and the executed/listed cases are compared with the model and with the expected case list computed from the abstract program (one per types x consts combination, one per argument, nothing for empty lists). The macro lab renders random programs as Rust source with the real #[divan::bench] / #[divan::bench_group] attributes (raw identifiers, custom names, every option in each of its written forms, types/consts in both parameter orders, literal and external const lists, args as array/vec/reference/iterator of &str, String, i32, f64, bool and a Debug-only type, functions with and without a Bencher), compiles them, and has the child dump what the macros registered - module path, raw and display name, file/line, the BenchOptions, the shape of generic_benches, constructor order - before the real front end runs; registration is compared with the items as written ([C12] spec) and feeds the same front-end model.",
-    level_note="Trusted: Lean kernel; registry lab; macro lab (the renderer from items to source is the statement of what 'as written' means; rustc, cargo and the linker's .init_array handling are used, not modelled). Name clash F7 is a recorded finding (not generated by the macro lab).",
+    level_text="Theorems on the tree-building model (EntryList order, from_benches/insert_entry, insert_group): every registered plain benchmark and generic instance becomes exactly one leaf below parents named by its path components (buildTree_leaves, a multiset equality), bench_group entries add no leaf, and the placed-leaf multiset is invariant under any permutation of the registration order (order_independent); at every level of the built tree no two parent nodes carry the same raw name, whatever was registered in whatever order (Props/C12Uniq.buildTree_uniq, uniq_same_node): a module is one node; the nodes of the tree are exactly the non-empty prefixes of the registered entries' paths (Props/C12Groups.hasNode_fromBenches), insert_group sets the slot of exactly the node 'module path + raw name' and changes no node (slotAt_insertGroup, hasNode_insertGroup), and therefore a bench_group module with a benchmark at or below it always ends up with its group entry in that node (group_reaches_benchmarks_below; the last registered entry wins when several claim one node - finding F7), from where the walk takes the display name and hands the options down (C15). Tied to the code by the registry lab: entries are pushed into BENCH_ENTRIES/GROUP_ENTRIES in random constructor order exactly as the macro expansion does, the real front end runs, and the executed/listed cases are compared with the model and with the expected case list computed from the abstract program (one per types x consts combination, one per argument, nothing for empty lists). The macro lab renders random programs as Rust source with the real #[divan::bench] / #[divan::bench_group] attributes (raw identifiers, custom names, every option in each of its written forms, types/consts in both parameter orders, literal and external const lists, args as array/vec/reference/iterator of &str, String, i32, f64, bool and a Debug-only type, functions with and without a Bencher), compiles them, and has the child dump what the macros registered - module path, raw and display name, file/line, the BenchOptions, the shape of generic_benches, constructor order - before the real front end runs; registration is compared with the items as written ([C12] spec) and feeds the same front-end model. Round 4: `Props/C12Push` models `EntryList::push` as three atomic steps per attempt (load head, store into the entry's next, compare_exchange_weak with spurious failures, retry with the returned value) and proves for every interleaving of any number of threads pushing any number of distinct entries that the list walked from the head is exactly the completed pushes, each once, that no entry disappears, and that once all threads are through it is exactly the entries that were to be registered; the `elist` lab pushes from 2-8 real threads at once and the driver runs the model on the linearisation the resulting list stands for, which must reproduce the list.",
+    level_note="Trusted: Lean kernel; registry lab; macro lab (the renderer from items to source is the statement of what 'as written' means; rustc, cargo and the linker's .init_array handling are used, not modelled). The push model's atomic-step granularity and sequentially consistent memory are assumptions: the code's Relaxed / Release / AcqRel orderings on one location plus the release of the entry's content are read, not modelled. Name clash F7 is a recorded finding (not generated by the macro lab).",
     trusted=REG_TRUST,
 )
 
